@@ -395,7 +395,7 @@ def model_view(case, m):
     errors = [err(e, 'pypyr.errors.SubprocessError') for e in m['errors']]
     return {'trace': impl.canon_trace(m['trace']), 'started': sorted(m['started']),
             'err_type': 'pypyr.errors.MultiError' if errors else None, 'errors': errors, 'cmdOut': co,
-            'anomalies': []}
+            'running_at_return': [], 'anomalies': []}
 
 
 def impl_view(case, o):
@@ -481,6 +481,14 @@ def check_results(got, want, where):
     return bad
 
 
+def monitor_hang(case, o):
+    """Every step returns (successfully or with its error) once the commands it started have exited."""
+    h = o['hang']
+    return [(case['kind'] + ':step-never-returned',
+             f"the step had not returned {h['after_s']} s after it was called (killed); commands started "
+             f"{h['started']}, finished {h['finished']}")]
+
+
 def monitor_serial(case, o):
     decls = impl.serial_decls(case['cfg'])
     procs = [p for p, _, _ in decls]
@@ -521,6 +529,9 @@ def monitor_async(case, o):
             pass    # reported as not_started_concurrently
         else:
             bad.append(('async:protocol:' + a[0], str(a[1:])))
+    if o.get('running_at_return'):
+        bad.append(('async:returned-before-every-started-command-finished',
+                    f"still running when the step returned: {o['running_at_return']}"))
     want_started, want_fail, want_res, want_exc = [], [], [], []
     for ps, save, text in lanes:
         att = attempted_prefix(ps)
@@ -588,7 +599,13 @@ def execute(env, res, cases):
             jobs.append((i, c, m.get('trace')))
         got = {}
         nviol = 0
-        for idx, o in pool.imap_unordered(impl.worker, jobs, chunksize=1):
+        it = pool.imap_unordered(impl.worker, jobs, chunksize=1)
+        for _ in range(len(jobs)):
+            try:
+                # every job ends by itself (impl.isolated kills a case at its deadline): this is a backstop
+                idx, o = it.next(timeout=impl.CASE_DEADLINE_S * 4 + 60)
+            except multiprocessing.TimeoutError:
+                raise common.Infra('C17: no case finished for too long although each has a deadline')
             if 'infra' in o:
                 raise common.Infra(f'C17 case {idx}: {o["infra"]}')
             got[idx] = o
@@ -602,7 +619,8 @@ def execute(env, res, cases):
 
 
 def judge(res, c, m, o):
-    mv, iv = model_view(c, m), impl_view(c, o)
+    mv = model_view(c, m)
+    iv = impl_view(c, o)
     failing = bool(mv.get('err') or mv.get('errors'))
     nstart = len(mv['started'])
     fault = case_fault(c)
@@ -616,7 +634,10 @@ def judge(res, c, m, o):
         res.count(f"faultpos:{c['kind']}:{c['fault']}@{c['pos']}")
     if c['kind'] == 'async':
         res.count(f"lanes:{c['lanes']}")
-    bad = monitor_serial(c, o) if c['kind'] == 'serial' else monitor_async(c, o)
+    if 'hang' in o:
+        bad = monitor_hang(c, o)
+    else:
+        bad = monitor_serial(c, o) if c['kind'] == 'serial' else monitor_async(c, o)
     for clause, detail in bad:
         res.violation(c, f'{clause}: {detail}', signature={'step': c['step'], 'clause': clause, 'failure': fault},
                       impl=iv)
